@@ -624,6 +624,44 @@ class Taint:
         self.busy = set()
         self.ret_memo = {}
         self.mut_idx = {}
+        self.stored = {}
+        self._stored_text()
+
+    # -- user text parked in a field of the IR and read back later ----------------------------
+    def _stored_text(self):
+        """`*name = Some(format!("{}{n}", options.anon_fields_prefix))` stores option text in `FieldData::name`; whoever reads that
+        field later handles user text.  Every assignment to a text-typed field of a crate type whose right-hand side derives from a
+        source makes the field a (derived) source carrying the original label.  Two rounds (text stored from stored text)."""
+        for _ in range(2):
+            new = {}
+            for b in self.prog.bodies.values():
+                if b.path.startswith("options::") or "::tests::" in b.path:
+                    continue
+                for n in b.nodes:
+                    if n["k"] != "Assign":
+                        continue
+                    l = strip(n["l"])
+                    tgt = None
+                    if l.get("k") == "Field" and l.get("adt") and l.get("adt") not in (OPT, ANN):
+                        tgt = (l["adt"], l["f"])
+                    elif l.get("k") in ("Unary", "Local"):
+                        x = strip(l["e"]) if l.get("k") == "Unary" else l
+                        d = b.local_def.get(x.get("id")) if x.get("k") == "Local" else None
+                        if d and d[1] and d[1][-1][0] and not str(d[1][-1][0]).startswith(("std::", "tuple")):
+                            tgt = (re.sub(r"::\w+$", "", d[1][-1][0]) if d[1][-1][0] not in self.prog.adts else d[1][-1][0], d[1][-1][1])
+                            if tgt[0] not in self.prog.adts:
+                                tgt = (d[1][-1][0], d[1][-1][1])
+                    if tgt is None or tgt in self.src or not TEXT_RE.search(b.ty(n["l"]) or ""):
+                        continue
+                    labs = {x for x in self.close(b, self.expr(b, n["r"])) if isinstance(x, str)}
+                    if labs:
+                        new[tgt] = sorted(labs)[0]
+                        self.stored[tgt] = (sorted(labs), b.loc(n))
+            if not new:
+                break
+            self.src.update(new)
+            self.memo.clear()
+            self.ret_memo.clear()
 
     # -- mutation sites of mutable locals, per body ------------------------------------------
     def mutations(self, body):
@@ -2247,3 +2285,252 @@ def r12_19(rep):
         rep.check(ok, "replacement-cycle-test", "a replacement whose alias chain leads back to the replaced item is skipped" if ok else
                   "nothing checks that the replacement is not defined in terms of the replaced type: the type would refer to itself and every "
                   "alias-following recursion overflows the stack", b.loc(c))
+
+
+# ---------------------------------------------------------------------------------------------
+# R12.20
+# ---------------------------------------------------------------------------------------------
+def _option_shape(b, e):
+    """'some' / 'none' / None for the value of a branch."""
+    e = strip(e)
+    while e.get("k") == "Block" and not e.get("stmts") and e.get("tail") is not None:
+        e = strip(e["tail"])
+    if e.get("k") == "Call" and (e.get("callee") or "").endswith("Some"):
+        return "some"
+    if e.get("k") == "Path" and (e.get("def") or "").endswith("::None"):
+        return "none"
+    s = b.canon(e, 2)
+    if s.startswith("std::prelude::v1::Some(") or s.startswith("std::option::Option::Some("):
+        return "some"
+    if s in ("std::prelude::v1::None", "std::option::Option::None"):
+        return "none"
+    return None
+
+
+@RULES.rule("R12.20", "an Option local that is `Some` only under a condition is unwrapped only where that condition holds", floor=2)
+def r12_20(rep):
+    """`let parent_canonical_name = if is_toplevel { None } else { Some(..) };` is later unwrapped in branches that test
+    `is_toplevel` again.  Narrowing the definition (`if is_toplevel || enum_ty.name().is_some() { None }`) without revisiting every
+    unwrap makes a named enum nested in a struct with a `constant` variant panic (seeded change).  For every local defined by an
+    if/else with one `None` and one `Some(..)` branch, each `unwrap()` / `expect()` of it (through as_ref / as_deref / as_mut /
+    clone) must sit under guards that imply the `Some` condition (truth table over the atoms of both conditions)."""
+    import itertools
+    import c08
+    prog = rep.prog
+    n = 0
+    per = defaultdict(int)
+    for p, b in sorted(prog.bodies.items()):
+        cands = {}
+        for st in b.nodes:
+            if st["k"] != "Let" or "init" not in st:
+                continue
+            init = strip(st["init"])
+            if init.get("k") != "If" or "else" not in init:
+                continue
+            pat = st.get("pat") or {}
+            if pat.get("k") != "Bind" or "sub" in pat:
+                continue
+            t, e = _option_shape(b, init["then"]), _option_shape(b, init["else"])
+            if {t, e} != {"some", "none"}:
+                continue
+            f = c08._formula(b, init["cond"])
+            cands[pat["id"]] = (pat["name"], f if t == "some" else ("not", f), st)
+        if not cands:
+            continue
+        for c in b.calls(lambda x: x["k"] == "MCall" and x["name"] in ("unwrap", "expect", "unwrap_unchecked")):
+            r = strip(c["recv"])
+            while r.get("k") == "MCall" and r["name"] in ("as_ref", "as_deref", "as_mut", "clone", "as_deref_mut", "cloned", "copied"):
+                r = strip(r["recv"])
+            if r.get("k") != "Local" or r["id"] not in cands or r["id"] in b.local_assigned:
+                continue
+            name, some_cond, st = cands[r["id"]]
+            n += 1
+            reach = c08._reach(b, c)
+            atoms = sorted(c08._atoms(reach, set()) | c08._atoms(some_cond, set()))
+            who = re.sub(r"<.*", "", (b.fact.get("impl_self") or "").split("::")[-1])
+            key0 = "unwrap-local:%s@%s" % (name, (who + "::" if who else "") + p.split("::")[-1])
+            per[key0] += 1
+            key = key0 if per[key0] == 1 else "%s#%d" % (key0, per[key0] - 1)
+            if len(atoms) > 18:
+                rep.bad(key, "conditions too large to decide (%d atoms)" % len(atoms), b.loc(c))
+                continue
+            wit = None
+            for vals in itertools.product((False, True), repeat=len(atoms)):
+                env = dict(zip(atoms, vals))
+                if c08._ev(reach, env) and not c08._ev(some_cond, env):
+                    wit = env
+                    break
+            rep.check(wit is None, key, "the guards imply the condition under which `%s` is Some" % name if wit is None else
+                      "`%s` is None when %s, and this unwrap is reached then: panic" %
+                      (name, " and ".join(("" if v else "not ") + k[:70] for k, v in wit.items())), b.loc(c))
+    rep.need(n >= 2, "unwraps of conditionally-Some locals")
+
+
+# ---------------------------------------------------------------------------------------------
+# R12.21  slices cut by a length computed elsewhere are in bounds
+# ---------------------------------------------------------------------------------------------
+def _lin_add(a, b_, sign=1):
+    d = dict(a[0])
+    for k, v in b_[0].items():
+        d[k] = d.get(k, 0) + sign * v
+        if d[k] == 0:
+            del d[k]
+    return (d, a[1] + sign * b_[1])
+
+
+def _lin(b, e, depth=0):
+    """linear form ({symbol: coefficient}, constant) of an integer expression, or None"""
+    e = strip(e)
+    k = e.get("k")
+    if depth > 12:
+        return None
+    if k == "Lit" and isinstance(e.get("v"), int) and not isinstance(e.get("v"), bool):
+        return ({}, e["v"])
+    if k == "Binary" and e["op"] in ("+", "-"):
+        l, r = _lin(b, e["l"], depth + 1), _lin(b, e["r"], depth + 1)
+        if l is None or r is None:
+            return None
+        return _lin_add(l, r, 1 if e["op"] == "+" else -1)
+    if k == "Local":
+        init = b.local_init(e["id"])
+        if init is not None and e["id"] not in b.local_assigned and (b.ty(e) or "") in ("usize", "u32", "u64", "isize", "i32", "i64"):
+            return _lin(b, init, depth + 1)
+        return ({"v:" + b.canon(e, 6): 1}, 0)
+    if k == "MCall" and e["name"] == "len" and not e.get("args"):
+        return _len_of(b, e["recv"], depth + 1)
+    return None
+
+
+def _len_of(b, r, depth=0):
+    r = strip(r)
+    while r.get("k") == "AddrOf":
+        r = strip(r["e"])
+    if r.get("k") == "Local" and r["id"] not in b.local_assigned and b.local_init(r["id"]) is not None:
+        i = strip(b.local_init(r["id"]))
+        while i.get("k") == "AddrOf":
+            i = strip(i["e"])
+        if i.get("k") == "Index":
+            r = i
+    if r.get("k") == "Index":
+        idx = strip(r["idx"])
+        if idx.get("k") == "Struct" and idx.get("adt") == "std::ops::RangeFrom":
+            base = _len_of(b, r["base"], depth + 1)
+            st = _lin(b, idx["fs"][0]["e"], depth + 1)
+            if base is not None and st is not None:
+                return _lin_add(base, st, -1)
+        return None
+    return ({"len:" + b.canon(r, 8): 1}, 0)
+
+
+def _facts_at(b, n):
+    """[(linear form f, c)] meaning f >= c, from the comparisons on the path to n"""
+    out = []
+    for pol, kind, g in b.guards(n, nested=True):
+        if kind != "cond":
+            continue
+        todo = [(pol, strip(g))]
+        while todo:
+            pl, e = todo.pop()
+            if e.get("k") == "Unary" and e.get("op") == "!":
+                todo.append((not pl, strip(e["e"])))
+            elif e.get("k") == "Binary" and e["op"] == ("&&" if pl else "||"):
+                todo += [(pl, strip(e["l"])), (pl, strip(e["r"]))]
+            elif e.get("k") == "Binary" and e["op"] in ("<", "<=", ">", ">=", "==", "!="):
+                op = e["op"]
+                if not pl:
+                    op = {"<": ">=", "<=": ">", ">": "<=", ">=": "<", "==": "!=", "!=": "=="}[op]
+                l, r = _lin(b, e["l"]), _lin(b, e["r"])
+                if l is None or r is None:
+                    continue
+                if op == "<":
+                    out.append((_lin_add(r, l, -1), 1))
+                elif op == "<=":
+                    out.append((_lin_add(r, l, -1), 0))
+                elif op == ">":
+                    out.append((_lin_add(l, r, -1), 1))
+                elif op == ">=":
+                    out.append((_lin_add(l, r, -1), 0))
+                elif op == "==":
+                    out.append((_lin_add(l, r, -1), 0))
+                    out.append((_lin_add(r, l, -1), 0))
+    return out
+
+
+def _prove_nonneg(e, facts):
+    """e >= 0 ?  (e a linear form)"""
+    if e is None:
+        return None
+
+    def lens_nonneg(d):      # every symbol is a length (>= 0) with a non-negative coefficient
+        return all(k.startswith("len:") and v >= 0 for k, v in d.items())
+    if lens_nonneg(e[0]) and e[1] >= 0:
+        return "lengths are non-negative"
+    for f, c in facts:
+        d = _lin_add(e, f, -1)
+        if lens_nonneg(d[0]) and d[1] + c >= 0:
+            return "from a comparison on the path"
+    return None
+
+
+def _fmt_lin(e):
+    if e is None:
+        return "?"
+    parts = ["%s%s" % ("" if v == 1 else "%d*" % v, k.split("(")[-1].rstrip(")")[:40] if k.startswith("len:") else k[:40]) for k, v in sorted(e[0].items())]
+    return " + ".join(parts + ([str(e[1])] if e[1] or not parts else []))
+
+
+@RULES.rule("R12.21", "a buffer sliced by a length taken from another value is long enough on every path", floor=5)
+def r12_21(rep):
+    """`names_will_be_identical_after_mangling` compares a symbol with `_` + name (+ `@N`) on bytes: `mangled[1..=canonical.len()]`,
+    `mangled[canonical.len() + 1..]`, `suffix[0]`.  The guard `mangled.len() < canonical.len() + 1 => return` is what keeps these in
+    range; weakening it by one (`int foo_(void) __asm__("_foo");` has a symbol exactly as long as the name) panics on a slice index
+    (seeded change).  For every function that indexes with a bound containing another value's `len()`, every index in that function
+    is proved: the needed inequality is linear in lengths and constants and must follow from one comparison on the path."""
+    prog = rep.prog
+    n = 0
+    per = defaultdict(int)
+    for p, b in sorted(prog.bodies.items()):
+        idxs = [x for x in b.nodes if x["k"] == "Index"]
+        if not idxs:
+            continue
+
+        def cross(x):
+            ib = b.canon(x["base"], 8)
+            for m_ in b.walk(x["idx"]):
+                if m_["k"] == "MCall" and m_["name"] == "len" and not m_.get("args") and b.canon(m_["recv"], 8) != ib:
+                    return True
+            return False
+        if not any(cross(x) for x in idxs):
+            continue
+        fn = p.split("::")[-1]
+        for x in idxs:
+            idx = strip(x["idx"])
+            L = _len_of(b, x["base"])
+            obs = []
+            if idx.get("k") == "Struct" and (idx.get("adt") or "").startswith("std::ops::Range"):
+                fs = {f["f"]: f["e"] for f in idx["fs"]}
+                adt = idx["adt"]
+                if adt == "std::ops::RangeFull":
+                    continue
+                st = _lin(b, fs["start"]) if "start" in fs else ({}, 0)
+                en = _lin(b, fs["end"]) if "end" in fs else L
+                if adt == "std::ops::RangeToInclusive":
+                    en = _lin_add(en, ({}, 1)) if en else None
+                obs = [("end <= len", _lin_add(L, en, -1) if L and en else None), ("start <= end", _lin_add(en, st, -1) if st and en else None)]
+            elif idx.get("k") == "Call" and (idx.get("callee") or "").startswith("std::ops::RangeInclusive"):
+                lo, hi = _lin(b, idx["args"][0]), _lin(b, idx["args"][1])
+                hi1 = _lin_add(hi, ({}, 1)) if hi else None
+                obs = [("end < len", _lin_add(L, hi1, -1) if L and hi1 else None), ("start <= end + 1", _lin_add(hi1, lo, -1) if lo and hi1 else None)]
+            else:
+                i = _lin(b, idx)
+                obs = [("index < len", _lin_add(L, _lin_add(i, ({}, 1)), -1) if L and i else None)]
+            facts = _facts_at(b, x)
+            n += 1
+            key0 = "in-bounds@%s" % fn
+            per[key0] += 1
+            key = key0 if per[key0] == 1 else "%s#%d" % (key0, per[key0] - 1)
+            bad = [(w, e) for w, e in obs if _prove_nonneg(e, facts) is None]
+            rep.check(not bad, key, "in range: " + "; ".join("%s (%s >= 0)" % (w, _fmt_lin(e)) for w, e in obs) if not bad else
+                      "`%s[%s]`: cannot show %s (needs %s >= 0) from the comparisons on the path: a slice index out of range panics"
+                      % (b.canon(x["base"], 2)[-40:], b.canon(idx, 4)[:70], bad[0][0], _fmt_lin(bad[0][1])), b.loc(x))
+    rep.need(n >= 5, "index expressions in functions that slice by another value's length")
